@@ -253,6 +253,32 @@ theorem round_trip {t : Tree} {dest : Path} {es : List Entry} {t0 : Tree} (hwf :
     · exact h
     · rw [h, hlt]
 
+/-- after a successful extraction the destination itself is a directory -/
+theorem extract_dest_is_dir {t : Tree} {dest : Path} {es : List Entry} {t0 : Tree} (hwf : WellFormed t) (hl : Listing t es)
+    (hnr : ∀ e ∈ es, e.1 ≠ []) (hc : DestClean t0 dest) :
+    lookup (extract dest es t0).2.1 dest = some .dir := by
+  obtain ⟨hok, hdir⟩ := mkdir_step t0 dest hc.2
+  have hinv0 : Inv t dest (mkdirAll t0 dest).2 := by
+    refine ⟨?_, ?_⟩
+    · intro rel hrel
+      rcases mkdirAll_effect t0 dest (dest ++ rel) with a | ⟨_, _, a3⟩
+      · left; rw [a]; exact hc.1 rel hrel
+      · rw [not_under_append_self dest rel hrel] at a3; cases a3
+    · intro q hq
+      rcases mkdirAll_effect t0 dest q with a | ⟨_, a2, _⟩
+      · unfold isFile; rw [a]; exact hc.2 q hq
+      · exact isFile_false_of_lookup (Or.inr a2)
+  unfold extract
+  generalize hm : mkdirAll t0 dest = m at hok hdir hinv0
+  obtain ⟨r1, t1⟩ := m
+  simp only at hok hdir hinv0
+  subst hok
+  simp only
+  have hall : ∀ e ∈ es, e.1 ≠ [] ∧ lookup t e.1 = some e.2 :=
+    fun e he => ⟨hnr e he, (hl e.1 e.2 (hnr e he)).2 he⟩
+  obtain ⟨_, _, _, d, _, _⟩ := unzip_entries (dest := dest) hwf es t1 hinv0 hall
+  exact d _ _ hdir
+
 /-! ### trees as written by a walk: one entry per path -/
 
 /-- one entry per path, none for the root -/
